@@ -13,9 +13,9 @@ ROOT = os.path.dirname(os.path.dirname(os.path.abspath(__file__)))
 
 # property -> list of stages; each stage = (family, focus, runs_quick, runs_thorough, params)
 CHECKS = {
-    "C01": {"level": "exploration", "stages": [("e1", "C01", 120000, 3000000, {}), ("e2", "C01", 8000, 400000, {})]},
-    "C02": {"level": "exploration", "stages": [("e1", "C02", 80000, 2500000, {}), ("e2", "C02", 8000, 400000, {})]},
-    "C03": {"level": "exploration", "stages": [("e1", "C03", 60000, 2000000, {}), ("e2", "C03", 8000, 400000, {})]},
+    "C01": {"level": "exploration", "stages": [("e1", "C01", 120000, 3000000, {}), ("e2", "C01", 8000, 400000, {}), ("e7", "C01", 40000, 1500000, {"boundscheck": 0})]},
+    "C02": {"level": "exploration", "stages": [("e1", "C02", 80000, 2500000, {}), ("e2", "C02", 8000, 400000, {}), ("e7", "C02", 40000, 1500000, {"boundscheck": 0})]},
+    "C03": {"level": "exploration", "stages": [("e1", "C03", 60000, 2000000, {}), ("e2", "C03", 8000, 400000, {}), ("e7", "C03", 40000, 1500000, {"boundscheck": 0})]},
     "C04": {"level": "exploration", "stages": [("e1", "C04", 40000, 1500000, {})]},
     "C07": {"level": "exploration", "stages": [("e1", "C07", 60000, 1500000, {}), ("e3", "C07", 20000, 600000, {})]},
     "C08": {"level": "exploration", "stages": [("e1", "C08", 50000, 1500000, {})]},
@@ -23,7 +23,7 @@ CHECKS = {
     "C10": {"level": "exploration", "stages": [("e1", "C10", 20000, 700000, {})]},
     "C13": {"level": "exploration", "stages": [("e1c13", "C13", 20000, 700000, {}), ("e6", "C13", 0, 0, {"runs_factor": 1})]},
     "C15": {"level": "exploration", "stages": [("e4", "C15", 0, 0, {}), ("e4", "C15", 0, 0, {"wide": 1, "n_quick": 32, "n_thorough": 600}), ("e1", "C15", 30000, 1000000, {})]},
-    "C16": {"level": "exploration", "stages": [("e1", "C16", 30000, 1000000, {}), ("e3", "C16", 20000, 600000, {})]},
+    "C16": {"level": "exploration", "stages": [("e1", "C16", 30000, 1000000, {}), ("e3", "C16", 20000, 600000, {}), ("e7", "C16", 60000, 1500000, {"boundscheck": 1})]},
     "C17": {"level": "exploration", "stages": [("e1", "C17", 30000, 1000000, {}), ("e2", "C17", 8000, 400000, {})]},
     "C11": {"level": "exploration", "stages": [("e2", "C11", 20000, 1500000, {})]},
     "C12": {"level": "exploration", "stages": [("e2", "C12", 20000, 1500000, {})]},
@@ -409,7 +409,7 @@ RULES = {
     "C12": _E2 + "(Problem.split always, k up to size+3, any variable incl. shared domains with offsets). Oracle: original unchanged, parts differ only in that domain, no shared state, each part solved by a simulated worker under the step budget, disjoint union = reference. " + _NT,
     "C13": "e1c13: generated model + 1-2 rewrites (permute constraints / variables / shared domains, duplicate a constraint, add an always-true constraint, unshare through x-y=offset, translate) solved under independent configurations; e6: shipped models with shuffled / duplicated / always-true constraints against known counts and optima. " + _NT,
     "C15": "E4: one run = 1-3 generated models + a history of 3-10 operations in one interpreter, executed interpreted (twice) and compiled, + clean-room executions (fresh interpreter, own dependency chain) of 3 operations. Distinct = SHA-256 of the history.",
-    "C16": _E1 + "(arities up to 6, up to 8 variables) + E3. Oracle: no exception from a NuCS frame (IndexError in particular) on in-contract input, interpreted mode as bounds-checking executor. " + _NT,
+    "C16": _E1 + "(arities up to 6, up to 8 variables; wide runs up to 12) + E3 + E7: the same kind of generated model x configuration x call executed by the JIT-COMPILED engine built with NUMBA_BOUNDSCHECK=1 in a persistent sacrificial interpreter per pool process. Oracle: no exception from a NuCS frame (IndexError in particular) on in-contract input, interpreted; no index error (raised, or reported through sys.unraisablehook from behind a function address) and no death by signal, compiled. " + _NT,
     "C17": _E1 + _E2 + "Oracle: each of the 13 counters = event count from the interposed log (every documented reading of 'no change' accepted), laws for exhaustive BC enumeration, per-worker laws and sums. " + _NT,
     "C18": _E2 + "then, per scenario, EVERY (worker, death point, kind in {exception, kill with 0..2 unflushed messages lost}) when there are <= 24 of them (a seeded sample of 24 otherwise), each under a fresh delivery plan, 1/6 with a second death, 1/4 with a stalled survivor, 1/3 on a reused parent instance. Oracle: returns or raises within bounded virtual time; SimDeadlock (blocking get/join that can never return, endless polling) is the hang; results contain all survivor solutions, nothing invented. " + _NT,
     "C19": "E5: enumerated capacity points (stack heights x required depths x 1- or 2-level heuristics x BC/shaving; heights around the 8-bit limit; sizes around 2^16 parameters / positions / domains and 2^8 constraint types), each compiled in a sacrificial interpreter and interpreted. Distinct = point.",
@@ -437,7 +437,8 @@ ASSUMPTIONS = {
     "C04": ["termination is judged by a simulated-step budget two orders of magnitude above what terminating runs of the scope use (largest used/budget ratio reported in probes.max_budget_ratio_ppm)"],
     "C08": ["clause 3 is decided on constraint types: models made only of the types listed as bound-consistent, no shared domain twice in one constraint"],
     "C15": ["compiled runs use a per-tree numba cache under /verif/.cache; clean-room = fresh interpreter executing only the operation's own dependency chain"],
-    "C16": ["monitor-strength claim: numpy bounds checks in interpreted mode; negative indices wrap silently in both modes and surface as wrong answers under C02 instead"],
+    "C16": ["monitor-strength claim: numpy bounds checks in interpreted mode and numba's bounds checks in a separately compiled build (per-tree cache <sha>-bc); negative indices within the array length wrap silently in both and surface as wrong answers under C02 instead",
+            "the bounds-checked compiled build differs from the shipped compiled build only in the boundscheck flag"],
     "C19": ["each point runs compiled in a sacrificial interpreter and once interpreted; numpy's own IndexError / OverflowError count as 'raises an error'"],
     "C20": ["known counts: literature (queens, latin squares, magic squares, Golomb optima, Schur number) or brute force over the definition in sim/modelworker.py; known objects from explicit constructions validated by the same validators"],
 }
